@@ -40,6 +40,11 @@ func profileByName(name string, r *rand.Rand) Profile {
 		p.ReadyLagPct = 50
 	case "snapshot":
 		p.CompactPct, p.WMisc, p.CCPct, p.DropPct, p.WNet, p.CrashPct, p.WCrash, p.WPropose = 100, 9, 30, 10, 5, 30, 4, 9
+	case "partition-lag":
+		// divergent tails while appends are in flight: partitions and leader
+		// changes with starved storage threads
+		p.AppLagPct, p.WNet, p.DropPct, p.StalePct, p.WTick, p.CampaignPct, p.CrashPct, p.WPropose, p.ReadyLagPct = 90, 6, 10, 50, 22, 40, 15, 12, 40
+		p.HostileMin, p.CalmMin = 120, 150
 	case "snapshot-lag":
 		// snapshots and compaction while storage threads lag and terms change
 		p.CompactPct, p.WMisc, p.AppLagPct, p.DropPct, p.WTick, p.CampaignPct, p.WNet, p.CrashPct, p.CCPct, p.WPropose = 100, 9, 85, 10, 22, 40, 5, 15, 30, 9
@@ -83,9 +88,9 @@ func profileByName(name string, r *rand.Rand) Profile {
 var profileMix = map[string][]string{
 	"C01": {"crash-heavy", "crash-heavy", "async-lag", "churn", "partition", "kitchen-sink", "snapshot"},
 	"C02": {"election-storm", "election-storm", "crash-heavy", "async-lag", "partition", "transfer", "churn", "kitchen-sink"},
-	"C03": {"partition", "partition", "crash-heavy", "async-lag", "async-lag", "kitchen-sink"},
+	"C03": {"partition", "partition-lag", "partition-lag", "crash-heavy", "async-lag", "kitchen-sink"},
 	"C04": {"election-storm", "crash-heavy", "async-lag", "partition", "churn", "transfer", "kitchen-sink"},
-	"C05": {"crash-heavy", "crash-heavy", "async-lag", "async-lag", "snapshot", "kitchen-sink"},
+	"C05": {"crash-heavy", "crash-heavy", "async-lag", "partition-lag", "partition-lag", "snapshot", "kitchen-sink"},
 	"C06": {"steady", "flow", "churn", "partition", "crash-heavy", "kitchen-sink"},
 	"C07": {"kitchen-sink", "election-storm", "crash-heavy", "partition", "snapshot"},
 	"C08": {"flow", "async-lag", "snapshot", "crash-heavy", "kitchen-sink"},
@@ -169,7 +174,7 @@ func GenWorld(seed int64, prop string, idx int, steps int) WorldCfg {
 		cfg.Voters = cfg.Voters[:nn-1]
 	}
 	allAsync := r.Intn(3)
-	if cfg.Prof.Name == "async-lag" || cfg.Prof.Name == "churn-lag" || cfg.Prof.Name == "snapshot-lag" {
+	if cfg.Prof.Name == "async-lag" || cfg.Prof.Name == "churn-lag" || cfg.Prof.Name == "snapshot-lag" || cfg.Prof.Name == "partition-lag" {
 		allAsync = 0
 	}
 	mixed := r.Intn(3) == 0 // mixed PreVote/CheckQuorum flags
@@ -534,9 +539,16 @@ func (w *World) genMisc(r *rand.Rand, n *node, hostile bool) (Action, bool) {
 				return Action{K: "compact", N: n.id, A: lo + 1 + uint64(r.Intn(int(hi-lo)))}, true
 			}
 		}
-	case 2:
+	case 2, 6:
 		if len(n.snapReports) > 0 {
-			return Action{K: "repsnapq", N: n.id, F: r.Intn(3) == 0}, true
+			fail := r.Intn(3) == 0
+			if p.CompactPct == 100 {
+				fail = r.Intn(2) == 0
+			}
+			return Action{K: "repsnapq", N: n.id, F: fail}, true
+		}
+		if r.Intn(2) == 0 {
+			return Action{K: "unreach", N: n.id, A: w.anyID(r)}, true
 		}
 	case 3, 8:
 		if pct(r, p.CCPct) {
@@ -550,10 +562,7 @@ func (w *World) genMisc(r *rand.Rand, n *node, hostile bool) (Action, bool) {
 		if r.Intn(3) == 0 {
 			return Action{K: "forget", N: n.id}, true
 		}
-	case 6:
-		if r.Intn(2) == 0 {
-			return Action{K: "unreach", N: n.id, A: w.anyID(r)}, true
-		}
+	case 11:
 	case 7:
 		if r.Intn(3) == 0 {
 			return Action{K: "repsnap", N: n.id, A: w.anyID(r), F: r.Intn(2) == 0}, true
